@@ -233,7 +233,7 @@ fn draw_metadata(ctx: &mut Ctx, enc_edge: Option<&mut DCfg>) -> StreamMetadata {
 }
 
 fn draw_items(ctx: &mut Ctx, cfg: &mut DCfg, chunk: u32, edge: bool) -> Vec<Item> {
-    let n = ctx.ch.draw("op.count", 11) as usize;
+    let n = ctx.ch.draw("op.count", if ctx.tier_thorough { 31 } else { 11 }) as usize;
     let mut items = Vec::new();
     let ts_mode = ctx.ch.weighted("cfg.ts", &[3, 2, 2, 2]);
     let mut ts: u32 = match ts_mode {
@@ -241,6 +241,9 @@ fn draw_items(ctx: &mut Ctx, cfg: &mut DCfg, chunk: u32, edge: bool) -> Vec<Item
         3 => 0xFF_FF00,
         _ => 0,
     };
+    // per kind (video, audio): (timestamp, delta, length) of the previous item -- header
+    // compression works per chunk stream, so coincidences matter per kind
+    let mut last: [(u32, u32, usize, bool); 2] = [(0, 0, 0, false); 2];
     for _ in 0..n {
         let kind = ctx.ch.weighted("op.kind", &[4, 4, 2]);
         ts = match ts_mode {
@@ -248,6 +251,25 @@ fn draw_items(ctx: &mut Ctx, cfg: &mut DCfg, chunk: u32, edge: bool) -> Vec<Item
             1 => ctx.ch.draw("ts.step", 1 << 32) as u32,
             _ => ts.wrapping_add(ctx.ch.draw("ts.step", 400) as u32),
         };
+        let mut same_len: Option<usize> = None;
+        if kind < 2 && last[kind].3 {
+            let (pt, pd, pl, _) = last[kind];
+            // coincidences with the previous item of the same kind: same cadence, a timestamp
+            // that doubles the previous one (delta == previous absolute time), same timestamp;
+            // and the same length
+            match ctx.ch.weighted("ts.coincidence", &[6, 2, 2, 1, 1]) {
+                1 => ts = pt.wrapping_add(pd),
+                2 => ts = pt.wrapping_add(pt),
+                3 => ts = pt,
+                4 => {
+                    ts = pt.wrapping_add(*ctx.ch.pick("ts.step", &[0xFF_FFFFu32, 0x100_0000, 0xFF_FFFE]))
+                }
+                _ => {}
+            }
+            if ctx.ch.chance("op.arg.samelen", 1, 2) {
+                same_len = Some(pl);
+            }
+        }
         let c = chunk.max(1) as u64;
         let len = match ctx.ch.weighted("op.arg.lenk", &[4, 2, 3, 2, 1]) {
             0 => ctx.ch.range("op.arg.len", 1, 40),
@@ -263,7 +285,11 @@ fn draw_items(ctx: &mut Ctx, cfg: &mut DCfg, chunk: u32, edge: bool) -> Vec<Item
             3 => ctx.ch.range("op.arg.len", 41, 5000),
             _ => ctx.ch.range("op.arg.len", 60_000, 70_000),
         };
-        let len = len.min(c.saturating_mul(3000)) as usize;
+        let len = same_len.unwrap_or(len.min(c.saturating_mul(3000)) as usize);
+        if kind < 2 {
+            let pt = last[kind].0;
+            last[kind] = (ts, ts.wrapping_sub(pt), len, true);
+        }
         let droppable = ctx.ch.chance("op.arg.drop", 1, 3);
         let seed = ctx.ch.sub_seed("bytes.seed");
         items.push(match kind {
